@@ -9,15 +9,15 @@ def P(pid, technique, text, note, ref):
 
 P("C01", "trace monitor: MH decision ledger rebuilt from posterior-call trace + calibration z-tests; proposal-reversibility and attempt-weighted distribution tests",
   "Every accept/reject decision observed in real sampler runs is reconstructed from the trace of posterior evaluations and judged against the Metropolis-Hastings probability for the move proposed (exact for uphill moves, calibrated z-test for downhill moves); proposals are tested for reversibility; attempt-weighted chain statistics are compared with targets of known law. Finite-run statistical statements with a family-wise false-alarm budget of 1e-6 and two-stage confirmation; says nothing about trajectories not produced.",
-  "trusts numpy's generators and scipy.stats reference CDFs; long-run convergence is restated as finite-run tests with attempt weights; the retry-until-accept jump-chain bias is a recorded known finding (KNOWN_FINDINGS.txt)", "DESIGN.md §5 C01, §4")
+  "trusts numpy's generators and scipy.stats reference CDFs; long-run convergence is restated as finite-run tests with attempt weights; the retry-until-accept jump-chain bias is a recorded known finding (KNOWN_FINDINGS.txt); runs include a mid-run save/load, log-density offsets, and tempering runs whose stored log-probabilities are monitored through the C08 recorder", "DESIGN.md §5 C01, §4")
 P("C02", "contract monitor: closed-form GP posterior reference model on every GpRegressor call",
   "Post-conditions on the real GpRegressor.__call__/build_posterior compare every prediction of seeded random models (all kernels, composites, change-points, noise kernels, mean functions, d=1..4, y_err/y_cov) with an independently written closed-form posterior (plain solves) under a conditioning-derived tolerance, plus metamorphic re-runs (permutation, y_err vs y_cov).",
   "reference kernels written from the documented formulas; ill-conditioned systems (cond>1e10) are skipped and counted", "DESIGN.md §5 C02")
-P("C03", "state invariant at quiescent points + independence twin-run monitor",
-  "After every step/advance/exchange of every sampler the recorded log-probabilities are re-derived from the recorded samples with the harness's own temperature; mode() is checked against the record; samplers built from shared inputs are interleaved and compared bit-for-bit with solo twins.",
+P("C03", "state invariant at quiescent points (also after an interruption injected at the user's posterior) + independence twin-run monitor",
+  "After every step/advance/exchange of every sampler the recorded log-probabilities are re-derived from the recorded samples with the harness's own temperature; mode() is checked against the record, including after exchanges of real tempering runs (ladders in any order), after walkers exhaust their attempts and after a KeyboardInterrupt raised from inside the posterior; samplers built from shared inputs are interleaved and compared bit-for-bit with solo twins.",
   "user posterior is deterministic; comparisons at 1e-12 relative", "DESIGN.md §5 C03")
-P("C04", "trace monitor on posterior/gradient arguments + contract on Bounds.reflect/reflect_momenta with exact rational fold reference + shadow model of limits in force",
-  "Every point reaching the user's posterior/gradient and every stored sample is checked against a shadow model of the limits in force across random programs of limit calls; the fold map is compared with an exact-rational reference (identity inside, symmetric fold outside, momentum flipped iff odd fold count).",
+P("C04", "trace monitor on posterior/gradient arguments + contracts on Bounds.reflect/reflect_momenta, on the Gibbs proposal functions (observed raw draw) and on bounded_leapfrog (momentum carried along observed positions) with exact rational fold reference + shadow model of limits in force",
+  "Every point reaching the user's posterior/gradient and every stored sample is checked against a shadow model of the limits in force across random programs of limit calls; the fold map is compared with an exact-rational reference (identity inside, symmetric fold outside, momentum flipped iff odd fold count), for Bounds, for the Gibbs proposals (raw draw observed through a generator proxy) and for whole bounded trajectories; refused limit requests are part of the programs.",
   "containment judged at 4 ulp of the limit scale", "DESIGN.md §5 C04, §4.3")
 P("C05", "contract monitor: scipy.stats reference densities, quadrature normalisation, Richardson derivatives",
   "Post-conditions on __call__/gradient/cost/cost_gradient of the three likelihood classes against scipy.stats log-densities, unit normalisation by quadrature over the datum, and analytic/numerical derivatives through known Jacobians.",
@@ -29,7 +29,7 @@ P("C07", "direct monitoring of the leapfrog map on real chain objects: reversibi
   "The trajectory map of real HamiltonianChain objects is driven over seeded potentials, masses, temperatures, boxes and step sizes and judged for time-reversibility, unit Jacobian determinant, second-order energy error, consistency of kinetic energy with the momentum law, and accuracy of the fallback gradient.",
   "smooth well-conditioned potentials; kinked (wall-hit) finite-difference Jacobians and wall-grazing trajectories are skipped and counted; two recorded known findings: matrix-mass x bounds x reflection irreversibility, first-order energy error of reflecting trajectories", "DESIGN.md §5 C07")
 P("C08", "history monitor on the parallel-tempering pipes (RecordingConn) + snapshot invariants + schedule perturbation with identical-result oracle",
-  "Real ParallelTempering runs are recorded at the parent side of every pipe and through return_chains snapshots; exchange rounds are checked for matching, acceptance calibration, exact hand-over and re-tempering; the same seeded program is re-run under perturbed worker schedules (delays, slow worker, affinity) and must return identical chains; shutdown must terminate all workers.",
+  "Real ParallelTempering runs are recorded at the parent side of every pipe and through return_chains snapshots; exchange rounds are checked for matching, acceptance calibration, exact hand-over and re-tempering; the same seeded program is re-run under perturbed worker schedules (delays, slow worker, affinity) and must return identical chains; shutdown must terminate all workers; the pairing routines are contract-checked on ladders of 1-40 chains; targets include sharply peaked and terraced (tied) log-densities.",
   "sampled schedules, not all interleavings; watchdog expiry is inconclusive", "DESIGN.md §5 C08")
 P("C09", "state-equivalence monitor: read-out comparison and bit-identical continuation of saved/reloaded samplers vs never-saved twins",
   "For every sampler class and configuration, at save points before/after adaptation events, the reloaded object must report the same read-outs and tuning state, support the same calls, be saveable again and, with synchronised generators, continue bit-identically to the original.",
@@ -63,7 +63,7 @@ P("C18", "contract monitor: quadrature of the EI definition, branch-reach counte
   "trusts scipy.integrate.quad on a smooth, factored integrand", "DESIGN.md §5 C18")
 P("C19", "contract monitor: high-accuracy quadrature of the estimator's own pdf; metamorphic shift/scale re-runs",
   "For GaussianKDE and UnimodalPdf fitted to seeded samples: unit normalisation, cdf = integral of pdf, interval mass and end-density equality, mode optimality, moments vs centred quadrature, and covariance under shift/scale.",
-  "UnimodalPdf re-fits are compared at optimiser accuracy", "DESIGN.md §5 C19")
+  "UnimodalPdf re-fits are compared at optimiser accuracy; a KDE mode that is only the best point of its sample-derived search bracket is a recorded known finding", "DESIGN.md §5 C19")
 P("C20", "contract monitor: exact piecewise-quadratic CDF (PIT/KS + chi-square), true-conditional comparison on the grid",
   "piecewise_linear_sample draws are tested against the exact CDF of the tabulated piecewise-linear density on uniform and non-uniform grids; get_conditionals output is checked for normalisation, proportionality to the true conditional, coverage of the high-density region and containment; conditional_sample for containment.",
   "module RNG is seeded; KS/chi-square at family-wise 1e-6 with two-stage confirmation", "DESIGN.md §5 C20")
